@@ -506,11 +506,23 @@ impl SuffixArrayDictionary {
         use std::io::Write;
         
         let serialized = self.serialize()?;
-        let mut file = File::create(path)
+        // Write under a temporary name and rename into place once the file is complete and synced:
+        // the format has no integrity trailer, so a partly written file must never appear under
+        // the final name.
+        let path = path.as_ref();
+        let mut tmp_name = path.as_os_str().to_owned();
+        tmp_name.push(".tmp");
+        let tmp_path = std::path::PathBuf::from(tmp_name);
+        let mut file = File::create(&tmp_path)
             .map_err(|e| ZiporaError::io_error(&format!("Failed to create dictionary file: {}", e)))?;
         
         file.write_all(&serialized)
             .map_err(|e| ZiporaError::io_error(&format!("Failed to write dictionary file: {}", e)))?;
+        file.sync_all()
+            .map_err(|e| ZiporaError::io_error(&format!("Failed to sync dictionary file: {}", e)))?;
+        drop(file);
+        std::fs::rename(&tmp_path, path)
+            .map_err(|e| ZiporaError::io_error(&format!("Failed to move dictionary file into place: {}", e)))?;
         
         Ok(())
     }
